@@ -3,6 +3,7 @@ package app
 import (
 	"fmt"
 	"io/fs"
+	mathbits "math/bits"
 	"path"
 
 	"github.com/Eyevinn/mp4ff/bits"
@@ -46,11 +47,20 @@ func calcAudioSegRecipe(refNr uint32, refStart, refEnd, refTotalDur, refTimescal
 // calcAudioTimeFromRef returns audioTime right at or within one frameDur from refTime.
 // A frame is one mp4 sample, such as an AAC frame which is normally 1024 audio samples.
 func calcAudioTimeFromRef(refTime, refTimescale, audioFrameDur, audioTimescale uint64) uint64 {
-	audioOutTime := (refTime * audioTimescale / refTimescale) / audioFrameDur * audioFrameDur
-	if audioOutTime*refTimescale < refTime*audioTimescale {
+	// refTime*audioTimescale does not fit into 64 bits for high reference timescales (10 MHz: after 1.2 years)
+	audioTime, rem := mulDiv64(refTime, audioTimescale, refTimescale)
+	audioOutTime := audioTime / audioFrameDur * audioFrameDur
+	// audioOutTime*refTimescale < refTime*audioTimescale, given audioOutTime <= audioTime
+	if audioOutTime < audioTime || rem > 0 {
 		audioOutTime += audioFrameDur
 	}
 	return audioOutTime
+}
+
+// mulDiv64 returns a*b/c and a*b%c with the product on 128 bits (the low 64 bits of the quotient if it needs more).
+func mulDiv64(a, b, c uint64) (quo, rem uint64) {
+	hi, lo := mathbits.Mul64(a, b)
+	return mathbits.Div64(hi%c, lo, c)
 }
 
 type sampleItvl struct {
